@@ -7,6 +7,7 @@ from .. import core, qeval, qpool
 from .. import gen as G
 
 LEVEL = "proof"
+READY = True
 CLAIM = {
     "text": "Lean theorems over ALL documents and filter contexts, for the evaluator model: the keys selector yields exactly an object's member names in order and nothing "
             "for other values; the fake root evaluates as the root query on the one-element array holding the document; the current-key identifier is the candidate's member "
